@@ -316,6 +316,28 @@ theorem cse_keys_only_counterexample (hs : String → Int) (ha : String × Strin
     refine ⟨_, rfl, ?_⟩
     decide
 
+/-! ## every run starts from an empty table -/
+
+/-- Every run of the walk has to start from an EMPTY table (`cse = cseGo [] []`: a fresh `KnownOps` per `CSEDriver`).
+Started with a table that still holds an entry of an earlier run on another program (its `constant 7`, value 100
+there), the walk erases the block's own constant and leaves a use of value 100, which nothing in this block defines:
+the source block runs, the block after CSE from the empty table runs, the block after the walk with the stale table
+does not. -/
+theorem cse_stale_table_counterexample :
+    let sem : String → List Int → Option Int := fun k vs =>
+      match k, vs with
+      | "c:7", [] => some 7
+      | "muli", [a, b] => some (a * b)
+      | _, _ => none
+    let prog : List (Instr String) := [⟨1, "c:7", []⟩, ⟨2, "muli", [0, 1]⟩]
+    let e0 : Env Int := fun v => if v = 0 then some 3 else none
+    let stale : Known String := [(("c:7", []), 100)]
+    (run sem e0 prog).isSome = true ∧
+    (run sem e0 (cse prog).1).isSome = true ∧
+    (cseGo stale [] prog).1 = [⟨2, "muli", [0, 100]⟩] ∧
+    (run sem e0 (cseGo stale [] prog).1).isSome = false := by
+  decide
+
 /-! ## non-vacuity -/
 example : (cse [⟨2, "addi", [0, 1]⟩, ⟨3, "addi", [0, 1]⟩, ⟨4, "muli", [3, 2]⟩]).1
     = [⟨2, "addi", [0, 1]⟩, ⟨4, "muli", [2, 2]⟩] := by decide
